@@ -206,7 +206,9 @@ func itemCodecs() []*codec {
 			return []namedBytes{{"depth-10", []byte("[[[[[[[[[[1]]]]]]]]]]")}}
 		},
 		reject: func() []namedBytes {
-			return []namedBytes{{"depth-11", []byte("[[[[[[[[[[[1]]]]]]]]]]]")}, {"duplicate-key", []byte(`{"a":1,"a":2}`)}, {"fraction", []byte("1.5")}}
+			return []namedBytes{{"depth-11", []byte("[[[[[[[[[[[1]]]]]]]]]]]")}, {"duplicate-key", []byte(`{"a":1,"a":2}`)}, {"fraction", []byte("1.5")},
+				// integers are limited to 256 bits (stackitem.MaxBigIntegerSizeBits)
+				{"integer-over-256-bits", []byte("1e77")}, {"integer-with-exponent-1e9", []byte("1e1000000000")}}
 		},
 	}
 	return []*codec{bin, prot, js}
